@@ -77,6 +77,21 @@ impl Write for ShortWriter {
     fn flush(&mut self) -> std::io::Result<()> { Ok(()) }
 }
 
+/// inner writer driven by an event list: 0 = transient error (nothing consumed), n = accept up to n bytes
+struct FlakyWriter { data: Vec<u8>, events: Vec<usize>, i: usize, log: Vec<usize> }
+impl Write for FlakyWriter {
+    fn write(&mut self, buf: &[u8]) -> std::io::Result<usize> {
+        let e = self.events[self.i % self.events.len()];
+        self.i += 1;
+        self.log.push(e);
+        if e == 0 { return Err(std::io::Error::new(if self.i % 2 == 0 { std::io::ErrorKind::WouldBlock } else { std::io::ErrorKind::TimedOut }, "transient")); }
+        let n = e.min(buf.len());
+        self.data.extend_from_slice(&buf[..n]);
+        Ok(n)
+    }
+    fn flush(&mut self) -> std::io::Result<()> { Ok(()) }
+}
+
 pub fn run(ctx: &mut Ctx) {
     let scale = if ctx.quick() { 1 } else { 12 };
     // ---- byte-string hashes around every BLAKE3 block / chunk / tree boundary
@@ -208,6 +223,35 @@ pub fn run(ctx: &mut Ctx) {
                      format!("{{\"suite\":\"hashes\",\"seed\":{},\"hashedwrite_case\":{},\"len\":{},\"accepts\":[{}]}}", ctx.seed, i, len, join(&accepts)));
         }
         ctx.stat(if short { "hashedwrite_short" } else { "hashedwrite_full" });
+    }
+    // ---- HashedWrite over an inner writer with transient errors; the caller presents the rest again (Write::write contract:
+    //      an error means nothing of that call was consumed)
+    for i in 0..(40 * scale) {
+        let len = rng.range(1, 5000) as usize;
+        let data = rng.bytes(len);
+        let mut events: Vec<usize> = (0..rng.range(2, 8)).map(|_| if rng.chance(1, 3) { 0 } else { rng.range(1, 900) as usize }).collect();
+        if i % 3 == 0 { let p = rng.range(1, events.len() as u64 - 1) as usize; events[p - 1] = rng.range(1, 200) as usize; events[p] = 0; }
+        if events.iter().all(|e| *e == 0) { events.push(rng.range(1, 900) as usize); }
+        let mut hw = HashedWrite::new(FlakyWriter { data: vec![], events: events.clone(), i: 0, log: vec![] });
+        let mut rest = &data[..];
+        let mut guard = 0;
+        while !rest.is_empty() && guard < 100_000 {
+            guard += 1;
+            match hw.write(rest) { Ok(0) => break, Ok(n) => rest = &rest[n..], Err(_) => continue }
+        }
+        let h = hw.hash();
+        let inner = hw.into_inner();
+        let (off, l) = ctx.blob(&data);
+        ctx.op(&format!("hashedwrite.retry {off} {l} {}", join(&inner.log)), &format!("hash={} written={}", h.hex(), inner.data.len()));
+        let mid_buffer_error = inner.log.windows(2).any(|w| w[0] != 0 && w[1] == 0);
+        ctx.stat(if mid_buffer_error { "hashedwrite_retry_error_after_partial_progress" } else { "hashedwrite_retry_other" });
+        let replay = format!("{{\"suite\":\"hashes\",\"seed\":{},\"hashedwrite_retry_case\":{},\"len\":{},\"events\":[{}]}}", ctx.seed, i, len, join(&events));
+        if h != compute_data_hash(&inner.data) {
+            ctx.fail("C06", "hashedwrite-transient-error", format!("HashedWrite::hash() != compute_data_hash(bytes that reached the inner writer) when the inner writer behaves as {:?} (0 = transient error, n = accepts n bytes) and the caller re-presents the rest (len {len})", &events), replay.clone());
+        }
+        if inner.data != data {
+            ctx.fail("C06", "hashedwrite-transient-error-data", format!("HashedWrite over an inner writer behaving as {:?} delivered {} bytes that are not the {} bytes written", &events, inner.data.len(), len), replay);
+        }
     }
 }
 
